@@ -88,3 +88,11 @@ let () =
     | _ -> "BADCASE");
   register "bt.chain" (function [hs] -> chain hs | _ -> "BADCASE")
 (* <<< a_c03 *)
+
+(* >>> s_c03 (wave 6): bt.mirl = bt.mir (the harness runs it on a large stack; the model needs none) *)
+let () =
+  register "bt.mirl" (function [h] ->
+      let d = bytes_of_hex h in
+      Printf.sprintf "opt=%s ref=%s" (mir_flags d (BinTape.parse_opt d)) (mir_flags d (BinTape.parse_ref d))
+    | _ -> "BADCASE")
+(* <<< s_c03 *)
